@@ -394,6 +394,17 @@ func runProg(inp input, scratch string) core.Result {
 			return res
 		}
 	}
+	// Entry is derived data (what signatures[sig] of the asking package leads to in the program AS PRINTED):
+	// recompute it, so that a hand-edited or older replay cannot carry a stale value
+	derived := map[[2]int]string{}
+	for _, c := range callsOf(p) {
+		derived[[2]int{c.F, c.Via}] = c.Entry
+	}
+	for i, c := range p.Calls {
+		if e, ok := derived[[2]int{c.F, c.Via}]; ok {
+			p.Calls[i].Entry = e
+		}
+	}
 	files := p.files()
 	dir := filepath.Join(scratch, "mod")
 	for name, src := range files {
@@ -552,6 +563,16 @@ func tagsOf(p *Prog, mode string) ([]string, bool) {
 				if len(s.Lhs) > 1 && len(s.Rhs) == 1 {
 					tags["multi_value_assignment"] = true
 				}
+			case "group":
+				if s.Label && holdsReturn(s.Blocks) {
+					tags["return_under_label"] = true
+				}
+				switch s.Head {
+				case "range", "select", "typeswitch", "elseif":
+					if holdsReturn(s.Blocks) {
+						tags["return_in_"+s.Head] = true
+					}
+				}
 			}
 			for _, e := range s.Rhs {
 				walkE(e)
@@ -611,6 +632,17 @@ func tagsOf(p *Prog, mode string) ([]string, bool) {
 	sort.Strings(out)
 	nontrivial := len(out) > 2
 	return out, nontrivial
+}
+
+func holdsReturn(bs [][]*Stmt) bool {
+	for _, b := range bs {
+		for _, s := range b {
+			if s.K == "return" || holdsReturn(s.Blocks) {
+				return true
+			}
+		}
+	}
+	return false
 }
 
 func literalOnly(f *Func) bool {
